@@ -326,6 +326,32 @@ def handle (op : String) (args : List String) : String :=
       let o ← parseOps parseSs ops
       if p == "x" then some (showTrace (SeqLedger.ssTrace policyExact w o))
       else if p == "s" then some (showTrace (SeqLedger.ssTrace policyStd w o)) else none)
+  | "seq-trim", [_w, v, off, e, u] =>
+    -- StringUtils::TrimLeft (l) / TrimRight (r) / Trim (t) on `u` with the cursors `off`, `e` (= end offset, or length for t)
+    orBad (do
+      let off ← nat? off
+      let e ← nat? e
+      let u ← parseNats u
+      if v == "l" then some (toString (trimLeftOff u off e))
+      else if v == "r" then some (toString (trimRightEnd u off e))
+      else if v == "t" then (let r := trimOffLen u off e; some s!"{r.1} {r.2}")
+      else none)
+  | "seq-trim-spec", [_w, v, off, e, u] =>
+    -- the same cursors from the plain-list reading: drop / keep exactly the units in {space, \t, \n, \r}
+    orBad (do
+      let off ← nat? off
+      let e ← nat? e
+      let u ← parseNats u
+      let isws := fun (c : Nat) => c == 32 || c == 9 || c == 10 || c == 13
+      if v == "l" then some (toString (off + (((u.take e).drop off).takeWhile isws).length))
+      else if v == "r" then some (toString (e - (((u.take e).drop off).reverse.takeWhile isws).length))
+      else if v == "t" then
+        (if e == 0 then some s!"{off} 0" else
+         let seg := (u.take (e + off)).drop off
+         let o' := off + (seg.takeWhile isws).length
+         let rest := seg.dropWhile isws
+         some s!"{o'} {rest.length - (rest.reverse.takeWhile isws).length}")
+      else none)
   | "seqtree", [prog] => runTreeLine prog
   | "seqmem", [what, simd, shift, size, seed] =>
     orBad (do
